@@ -3,10 +3,10 @@
 package rpc
 
 import (
-	"runtime"
 	"bytes"
 	"compress/gzip"
 	"io"
+	"runtime"
 	"strings"
 	"testing"
 	"time"
@@ -171,6 +171,8 @@ func vScenarioCases(t *testing.T, withDecode bool) {
 			vGuard(out, c.kind, c.id, func() { out.printf("e2en %s %s", c.id, vRunE2ENotify(c)) })
 		case "e2ec":
 			vGuard(out, c.kind, c.id, func() { out.printf("e2ec %s %s", c.id, vRunE2ECancel(c)) })
+		case "e2eb":
+			vGuard(out, c.kind, c.id, func() { out.printf("e2eb %s %s", c.id, vRunE2EBurst(c)) })
 		case "scn", "enc":
 			vGuard(out, c.kind, c.id, func() {
 				t0 := time.Now()
